@@ -69,13 +69,13 @@ def gen_overrides(rng, n, protected, how_many, clean):
     varying = []
     for f in chosen:
         lo, hi = lim(f)
-        ks = ['const', 'const0', 'vary', 'extreme', 'neg']
+        ks = ['const', 'const0', 'vary', 'extreme', 'neg', 'same_first', 'same_last']
         if not clean and n >= 3:
             ks += ['ends_equal', 'false_dup', 'dup', 'dup']
         elif not clean and n >= 2:
             ks += ['dup']
         k = rng.choice(ks)
-        if k in ('dup', 'false_dup') and not varying:
+        if k in ('dup', 'false_dup', 'same_first', 'same_last') and not varying:
             k = 'vary'
         if n == 1 and k not in ('const', 'const0'):
             k = 'const'
@@ -90,7 +90,14 @@ def gen_overrides(rng, n, protected, how_many, clean):
             col = -np.abs(g.randint(1, min(hi, 30000), size=n)).astype(np.int64)
         elif k == 'extreme':
             col = np.array([rng.choice([lo, hi, lo + 1, hi - 1, 0]) for _ in range(n)], dtype=np.int64)
-            col[0], col[-1] = lo, hi
+            col[0], col[-1] = rng.choice([(lo, hi), (hi, lo), (lo, hi - 1), (lo + 1, hi), (hi - 1, lo + 1), (0, lo), (hi, 0)])
+        elif k in ('same_first', 'same_last'):
+            # shares ONE end with another varying field (still inside the heuristic hypothesis)
+            src = rng.choice(varying)
+            col = g.randint(max(lo, -5000), min(hi, 5000) + 1, size=n).astype(np.int64)
+            e = 0 if k == 'same_first' else -1
+            if lo <= cols[src][e] <= hi:
+                col[e] = cols[src][e]
         elif k == 'ends_equal':
             col = g.randint(-100, 100, size=n).astype(np.int64)
             col[-1] = col[0]
@@ -104,10 +111,10 @@ def gen_overrides(rng, n, protected, how_many, clean):
                 col = cols[src].copy()
                 if k == 'false_dup':
                     col[n // 2] = col[n // 2] + (1 if col[n // 2] < hi else -1)
-        if k in ('vary', 'neg', 'extreme') and n >= 2 and col[0] == col[-1]:
+        if k in ('vary', 'neg', 'extreme', 'same_first', 'same_last') and n >= 2 and col[0] == col[-1]:
             col[-1] = col[0] + (1 if col[0] < hi else -1)
         cols[f], kinds[f] = col, k
-        if k in ('vary', 'neg', 'extreme'):
+        if k in ('vary', 'neg', 'extreme', 'same_first', 'same_last'):
             varying.append(f)
     return cols, kinds
 
@@ -373,6 +380,8 @@ def segy_case(label, kind, dims, how_many, clean, blockshape=None, bpv=8, reduce
         mk_segy(sgy, data, ilines, xlines, present=present, fmt=fmt,
                 hdr=lambda t, i, x: {TF(f): int(c[t]) for f, c in cols.items()})
         nx, shape = n_xl, (n_il, n_xl)
+        if kind == 'regular' and 1 in shape:          # a single line: the converter treats it as a 2D file
+            kind, nx, shape, blockshape = '2d', n, (n,), None
     truth, sbin, stext, n_src = read_source(sgy)
     assert n_src == n
     sgy_bytes = open(sgy, 'rb').read(3600)
@@ -430,9 +439,9 @@ def segy_case(label, kind, dims, how_many, clean, blockshape=None, bpv=8, reduce
             strip_modelled[kind] = True
         ndb = struct.unpack('<I', o['raw'][56:60])[0]
         bs = struct.unpack('<3I', o['raw'][44:56])
-        if kind == 'regular' and 1 not in shape:
+        if kind == 'regular':
             ge = f'(geo_regular {shape[0]} {shape[1]} {bs[0]})'
-        elif kind == '2d' or 1 in shape:
+        elif kind == '2d':
             ge = f'(geo_2d {n} {bs[1]})'
         else:
             il_of = [int(g) // shape[1] for g in grid_pos]
